@@ -14,7 +14,7 @@ BASE = dict(Keys={1, 2}, Sources={0, 1}, FixD6=True, MinOpsToEmit=1)
 
 def cfgc(**kw):
     c = dict(BASE, Nodes={1, 2}, CNodes={1, 2}, F=3, Times={0, 1, 2}, MaxOps=2, MaxDup=0, MaxExch=4, WithBatch=False, WithBulk=False,
-             WithRestart=False, WithPurge=False, WithTracker=False, NoDirect=False, MaxSkew=2)
+             WithRestart=False, WithPurge=False, WithTracker=False, NoDirect=False, MaxSkew=2, SplitGetState=False, StampLast=False)
     c.update(kw)
     return c
 
@@ -23,14 +23,18 @@ def cfgc(**kw):
 EXHAUSTIVE = {
     "C01": {
         "quick": [("E1", cfgc()),                                                   # 2 ops, 4 exchanges
-                  ("E3", cfgc(MaxOps=3, MaxExch=2))],                                # 3 ops (the shape of the D6 counterexample)
+                  ("E3", cfgc(MaxOps=3, MaxExch=2)),                                 # 3 ops (the shape of the D6 counterexample)
+                  # the peer's GetState handler as its two steps (stamp, then state) with operations in between, and the tracker
+                  ("E9", cfgc(WithTracker=True, SplitGetState=True, NoDirect=True, MaxExch=3))],
         "thorough": [("E1", cfgc()), ("E3", cfgc(MaxOps=3, MaxExch=2)),
                      ("E2", cfgc(WithBatch=True, MaxExch=2)),                         # batches, removals-first halves
                      ("E4", cfgc(WithBulk=True, WithRestart=True, MaxExch=2)),       # bulk operations, restarts
                      ("E5", cfgc(Nodes={1, 2, 3}, CNodes={1, 2, 3}, F=2, Times={0, 1}, MaxSkew=1, MaxExch=2)),  # three nodes, two of them issue
                      ("E6", cfgc(MaxDup=1, MaxExch=3)),                               # duplicated deliveries
                      ("E7", cfgc(WithTracker=True, MaxExch=6)),                       # the poller's keyspace tracker skips unchanged peers
-                     ("E8", cfgc(WithTracker=True, WithRestart=True, MaxExch=2))],
+                     ("E8", cfgc(WithTracker=True, WithRestart=True, MaxExch=2)),
+                     ("E9", cfgc(WithTracker=True, SplitGetState=True, NoDirect=True, MaxExch=3)),
+                     ("E10", cfgc(WithTracker=True, SplitGetState=True, MaxOps=2, MaxExch=3))],
     },
     "C05": {   # nothing is replicated directly: every difference is repaired by exchanges
         "quick": [("X1", cfgc(NoDirect=True, WithBulk=True, MaxOps=2, MaxExch=4))],
@@ -48,10 +52,12 @@ SIMULATED = {
     "C01": {
         "quick": [("T1", cfgc(WithTracker=True, NoDirect=True, MaxOps=2, MaxExch=5, MinOpsToEmit=2), None, None, 6000),
                   ("S1", cfgc(MaxOps=3, MaxDup=1, MaxExch=6, WithBatch=True, WithBulk=True, MinOpsToEmit=2), 2500, 80, 3000),
+                  ("T2", cfgc(WithTracker=True, SplitGetState=True, NoDirect=True, MaxOps=3, MaxExch=6, MinOpsToEmit=2), 2500, 70, 1500),
                   ("S3b", cfgc(Nodes={1, 2, 3}, CNodes={1, 2, 3}, MaxOps=2, MaxExch=12, WithBulk=True, MinOpsToEmit=2), 1500, 120, 1500)],
         "thorough": [("T1", cfgc(WithTracker=True, NoDirect=True, MaxOps=2, MaxExch=5, MinOpsToEmit=2), None, None, 6000),
                      ("S3b", cfgc(Nodes={1, 2, 3}, CNodes={1, 2, 3}, MaxOps=3, MaxExch=14, WithBulk=True, WithBatch=True, MinOpsToEmit=2), 20000, 160, 8000),
                      ("S1", cfgc(MaxOps=3, MaxDup=1, MaxExch=6, WithBatch=True, WithBulk=True, MinOpsToEmit=2), 30000, 80, 25000),
+                     ("T2", cfgc(WithTracker=True, SplitGetState=True, NoDirect=True, MaxOps=3, MaxExch=6, MinOpsToEmit=2), 20000, 70, 8000),
                      ("S2", cfgc(MaxOps=4, MaxDup=1, MaxExch=8, WithBatch=True, WithBulk=True, WithRestart=True, MinOpsToEmit=3), 20000, 120, 6000),
                      ("S3", cfgc(Nodes={1, 2, 3}, CNodes={1, 2, 3}, MaxOps=3, MaxExch=12, WithBatch=True, MinOpsToEmit=2), 20000, 140, 6000)],
     },
@@ -82,6 +88,13 @@ def _exhaustive(ctx, name, c, workers):
     r2, _ = vlib.run_tlc(ctx, "Cluster", cfg2, "reach_" + name, workers=workers, timeout=5400, xmx="12g")
     if "NeverConverged" not in r2["violated"]:
         raise vlib.ToolError("vacuous: config %s never reaches a converged state with operations" % name)
+    if c.get("SplitGetState"):
+        # the specification has to tell the two orders of the handler's steps apart: with the stamp read last the poller's
+        # fixpoint is no longer sound
+        cfg3 = vlib.cfg_text(constants=dict(c, EmitTrace=False, StampLast=True), invariants=["C01_TrackerFixpoint"], view="MCView")
+        r3, _ = vlib.run_tlc(ctx, "Cluster", cfg3, "stamplast_" + name, workers=workers, timeout=5400, xmx="12g")
+        if "C01_TrackerFixpoint" not in r3["violated"]:
+            raise vlib.ToolError("config %s: reading the change stamp after the state no longer violates C01_TrackerFixpoint in the model" % name)
     return dict(name=name, kind="exhaustive", mc=mc, ok=ok, constants=_consts(c))
 
 
@@ -133,7 +146,8 @@ def _simulated(ctx, binary, name, c, num, depth, max_replay):
         return {"behaviours": sum(x["behaviours"] for x in parts), "steps": sum(x["steps"] for x in parts),
                 "violation_count": sum(x["violation_count"] for x in parts),
                 "poller_rounds": sum(x.get("poller_rounds", 0) for x in parts),
-                "poller_fixpoints": sum(x.get("poller_fixpoints", 0) for x in parts)}
+                "poller_fixpoints": sum(x.get("poller_fixpoints", 0) for x in parts),
+                "rounds_held_inside_getstate": sum(x.get("poller_rounds_held_inside_getstate", 0) for x in parts)}
     rep["coarse"] = whole("coarse", COARSE[ctx.tier])
     n_tracked = TRACKED[ctx.tier] if num is not None else max(TRACKED[ctx.tier], rep["behaviours"])
     # (G, tracked) the operations of the same behaviours, then every node runs the body of the real poller loop
@@ -142,6 +156,8 @@ def _simulated(ctx, binary, name, c, num, depth, max_replay):
     # pollers that keep asking for differences are not judged in tracked mode; if that happens more than occasionally and
     # nothing else was found, the run says nothing (decided in judge(), after every violation has been collected)
     rep["tracked"]["mostly_undecided"] = rep["tracked"]["poller_fixpoints"] < 0.9 * rep["tracked"]["behaviours"]
+    if c.get("SplitGetState") and rep["tracked"]["rounds_held_inside_getstate"] == 0:
+        raise vlib.ToolError("vacuous: no poller round of %s was held inside the peer's GetState handler" % name)
     os.remove(out_file)
     # (V) what every keyspace actor of the real nodes did during the replay, against Trace_KeyspaceActor.tla
     rep["actor_trace"] = actor_traces.validate(ctx, actor_trace.files_in(actors_dir), "actors_" + name, ACTOR_PROPS[ctx.prop],
